@@ -86,7 +86,8 @@ class CRun:
         enum = c_enum(self.h)
 
         def conv(x):
-            raw = {'name': bytes(x.name), 'units': bytes(x.units), 'component': bytes(x.component)}
+            base = ctypes.addressof(x)
+            raw = {k: ctypes.string_at(base + getattr(VI, k).offset, getattr(VI, k).size) for k in ('name', 'units', 'component')}
             return {'name': x.name.decode('utf-8', 'replace'), 'units': x.units.decode('utf-8', 'replace'), 'component': x.component.decode('utf-8', 'replace'),
                     'type': enum[x.type] if 0 <= x.type < len(enum) else x.type,
                     'terminated': all(b'\0' in raw[k] for k in raw)}
